@@ -1074,3 +1074,234 @@ func ruleRangeOffset(c *Ctx, rule string) {
 		c.und(rule, key, fn.Pos(), "no store into k.covered found")
 	}
 }
+
+// ---- endcellplain (C08): the best end cell is the cell of maximal score, nothing else ----
+
+// ruleEndCellPlain: the Smith-Waterman fill records the end of the best local
+// alignment (score, row, column) whenever a cell's score reaches the best so
+// far. The record is made under comparisons of that score only — with the best
+// so far, with zero, or with the cell's own complete candidates when the score
+// is their maximum (linear SW records a cell only if its diagonal candidate
+// attains the maximum, i.e. the alignment ends on a letter pair, which loses
+// nothing). Any other condition — such as "the maximum of the predecessor
+// layers, before this letter pair is scored, was attained in the match layer" —
+// leaves optimal alignments that end differently unrecorded, and a
+// lower-scoring alignment is returned.
+func ruleEndCellPlain(c *Ctx, rule string, fns []*ssa.Function) {
+	for _, fn := range fns {
+		c.Funcs[funcName(fn)] = true
+		key := funcName(fn) + "/end-cell-recorded-on-score-alone"
+		loops := naturalLoops(fn)
+		counters := map[ssa.Value]bool{} // induction variables: loop-head phis stepped by a constant
+		for _, l := range loops {
+			for _, ins := range l.head.Instrs {
+				phi, ok := ins.(*ssa.Phi)
+				if !ok {
+					break
+				}
+				for _, e := range phi.Edges {
+					if q, _, ok := linearIn(e); ok && q == phi && e != ssa.Value(phi) {
+						counters[phi] = true
+					}
+				}
+			}
+		}
+		n := 0
+		var bad *ssa.BinOp
+		var badOther ssa.Value
+		for _, m := range fn.Blocks {
+			// a join whose phis take two loop counters (row, column) and a score from one predecessor
+			for pi, pred := range m.Preds {
+				var score ssa.Value
+				best := map[ssa.Value]bool{}
+				nCounters := 0
+				for _, ins := range m.Instrs {
+					phi, ok := ins.(*ssa.Phi)
+					if !ok {
+						break
+					}
+					e := phi.Edges[pi]
+					// what the other predecessors bring: one and the same value (the best so far)
+					var other ssa.Value
+					same := true
+					for qi, oe := range phi.Edges {
+						if qi == pi {
+							continue
+						}
+						if other == nil {
+							other = oe
+						} else if other != oe {
+							same = false
+						}
+					}
+					if !same || other == nil || other == e {
+						continue
+					}
+					isCounter := func(v ssa.Value) bool {
+						if counters[v] {
+							return true
+						}
+						q, _, ok := linearIn(v)
+						return ok && counters[q]
+					}
+					if isCounter(e) {
+						if !isCounter(other) {
+							nCounters++
+						}
+						continue
+					}
+					_, eK := e.(*ssa.Const)
+					_, oK := other.(*ssa.Const)
+					if isIntegral(phi.Type()) && !eK && !oK {
+						score = e
+						best[other] = true
+					}
+				}
+				if nCounters < 2 || score == nil || len(m.Preds) < 2 {
+					continue
+				}
+				// the loop this happens in
+				var inner *ssaLoop
+				for _, l := range loops {
+					if l.body[pred] && (inner == nil || len(l.body) < len(inner.body)) {
+						inner = l
+					}
+				}
+				if inner == nil {
+					continue
+				}
+				n++
+				// the cell's own complete candidates, when its score is their maximum: asking which of them attains
+				// it (a linear alignment that ends on a letter pair) is a question about this cell's score
+				cands := map[ssa.Value]bool{}
+				if call, ok := score.(*ssa.Call); ok {
+					if g := call.Call.StaticCallee(); g != nil && strings.HasPrefix(g.Name(), "max") {
+						for _, a := range call.Call.Args {
+							cands[a] = true
+						}
+					}
+				}
+				allowed := func(v ssa.Value) bool {
+					if v == score || best[v] || cands[v] {
+						return true
+					}
+					_, isK := v.(*ssa.Const)
+					return isK
+				}
+				for d := pred; d != nil && inner.body[d]; d = d.Idom() {
+					if d == pred && len(d.Succs) == 2 {
+						// pred itself branches to the join: its own test decides the record
+					} else if d == pred {
+						continue
+					}
+					ifi, ok := d.Instrs[len(d.Instrs)-1].(*ssa.If)
+					if !ok {
+						continue
+					}
+					if d != pred && forcedEdge(d, pred) < 0 {
+						continue
+					}
+					bo, ok := ifi.Cond.(*ssa.BinOp)
+					if !ok {
+						badOther = ifi.Cond
+						continue
+					}
+					// illegal-letter tests and loop bounds dominate everything in the body: only tests that can
+					// still fall through to the rest of the body matter
+					if rejectsFrom(d, d.Succs[0]) || rejectsFrom(d, d.Succs[1]) || d == inner.head {
+						continue
+					}
+					if !allowed(bo.X) || !allowed(bo.Y) {
+						bad = bo
+					}
+				}
+			}
+		}
+		switch {
+		case n == 0:
+			c.und(rule, key, fn.Pos(), "the record of the best end cell (score, row, column taken together from one branch) was not found")
+		case bad != nil:
+			c.bad(rule, key, bad.Pos(), "the best end cell is recorded only if, besides the comparison of the score with the best so far, "+symName(bad.X, nil)+" "+bad.Op.String()+" "+symName(bad.Y, nil)+" holds: a cell of maximal score that fails this test is not recorded, so an optimal local alignment ending there is never returned")
+		case badOther != nil:
+			c.bad(rule, key, badOther.Pos(), "the best end cell is recorded under a condition that is not a comparison of the score: an optimal local alignment that fails it is never returned")
+		default:
+			c.ok(rule, key, fn.Pos(), "the end cell is recorded under comparisons of the score (with the best so far, with zero) only")
+		}
+	}
+}
+
+// ---- tracelayer (C09): an affine traceback step is a transition of the layer it is in ----
+
+// ruleTraceLayer: the affine aligners keep three layers per cell (match, gap
+// in the query, gap in the reference). A cell of the gap-in-query layer can
+// only have been reached from the cell above, a cell of the gap-in-reference
+// layer only from the cell to the left, a cell of the match layer only from
+// the diagonal cell. A traceback that compares table[p][layer], for a variable
+// layer, with the predecessor formulas of all three kinds takes a move of
+// another layer whenever the numbers happen to coincide: the path it reports is
+// then not the path the score was computed along, and the pair scores no longer
+// equal the scores recomputed from the letters (their sum still equals the
+// optimum). Each comparison with a predecessor of one kind must be dominated
+// by a test that the current layer is the layer of that kind.
+func ruleTraceLayer(c *Ctx, rule string, fns []*ssa.Function) {
+	for _, fn := range fns {
+		c.Funcs[funcName(fn)] = true
+		key := funcName(fn) + "/traceback-step-is-a-transition-of-its-layer"
+		n := 0
+		var bad *ssa.BinOp
+		for _, b := range fn.Blocks {
+			ifi, ok := b.Instrs[len(b.Instrs)-1].(*ssa.If)
+			if !ok {
+				continue
+			}
+			bo, ok := ifi.Cond.(*ssa.BinOp)
+			if !ok || bo.Op != token.EQL {
+				continue
+			}
+			// one side: a load of cell[layer] with a variable layer
+			var layerVar ssa.Value
+			for _, side := range []ssa.Value{bo.X, bo.Y} {
+				ld, ok := side.(*ssa.UnOp)
+				if !ok || ld.Op != token.MUL {
+					continue
+				}
+				ia, ok := ld.X.(*ssa.IndexAddr)
+				if !ok {
+					continue
+				}
+				pt, ok := ia.X.Type().Underlying().(*types.Pointer)
+				if !ok {
+					continue
+				}
+				if arr, ok := pt.Elem().Underlying().(*types.Array); !ok || arr.Len() != 3 {
+					continue
+				}
+				if _, isK := ia.Index.(*ssa.Const); !isK {
+					layerVar = ia.Index
+				}
+			}
+			if layerVar == nil {
+				continue
+			}
+			n++
+			// is the current layer known here?
+			known := false
+			for _, bf := range branchesAt(b) {
+				if (bf.cond.X == layerVar || bf.cond.Y == layerVar) && effectiveOp(bf, true) == token.EQL {
+					known = true
+				}
+			}
+			if !known && bad == nil {
+				bad = bo
+			}
+		}
+		switch {
+		case n == 0:
+			c.triv(rule, key, fn.Pos(), "the traceback does not compare a cell of a variable layer with predecessor formulas")
+		case bad != nil:
+			c.bad(rule, key, bad.Pos(), fmt.Sprintf("the traceback compares the current cell's value in the current layer with predecessor formulas of every kind (%d comparisons) without testing which layer it is in: when the numbers coincide it takes a move that is not a transition of that layer, so the reported path is not the one the score was computed along and the pair scores differ from the scores recomputed from the letters (their sum still equals the optimum)", n))
+		default:
+			c.ok(rule, key, fn.Pos(), "every comparison with a predecessor formula is made where the current layer is known")
+		}
+	}
+}
